@@ -11,7 +11,7 @@ import time
 from .project import VERIF, AnalysisBroken, relpath
 
 KNOWN = os.path.join(VERIF, 'known_findings.json')
-EVID = os.path.join(VERIF, 'evidence')
+EVID = os.environ.get('VERIF_EVIDENCE_DIR') or os.path.join(VERIF, 'evidence')
 
 
 class Instance:
@@ -65,6 +65,11 @@ def load_known():
     if not os.path.exists(KNOWN):
         return []
     return json.load(open(KNOWN)).get('findings', [])
+
+
+def is_known(pid, inst):
+    return any(k.get('property') == pid and k.get('status') == 'known' and k.get('rule') == inst.rule and k.get('key') == inst.key
+               for k in load_known())
 
 
 def finish(rep, tier, seed, t0):
